@@ -8,10 +8,15 @@ harness drove the real pipe through: every action is followed by `quiesce` (all 
 PING replies, the 1 s grace timer last), which is what the harness waits for event by event.
   reset pl=<0|1> k k …             k ∈ bg (Background ctx) | cn (cancellable, no deadline) | dl (deadline)
   act call i | calldone i | calldl i | release | cancel i | kill | close
+  raw <label> <label> …            single steps without quiescence (the hook-driven schedules):
+                                   enter i | decide i | put i | closeEnter | closeCas | closePing
+  rawq <label> …                   the same, followed by quiescence
+  settle                           quiesce
   end
 `!` lines are answered from the specification (the statements of Rv.C04.Life), not from the model:
   !call <returned> <class> <ctxAtStart> <ctxDone> <sent>
   !final <bgStarted> <triggered> <state> <waits>
+  !race <variant> <A returned> <B returned> <Close returned> <state> <waits>
 -/
 open Rv Rv.PipeLife
 
@@ -49,11 +54,11 @@ def snapshot (s : St) : String := "st=" ++ toString s.state ++ " ret=" ++ showRe
 def applyAll (s : St) : List Label → Except String St
   | [] => .ok s
   | l :: ls =>
-    match step false s l with
+    match stepNow s l with
     | some s' => applyAll s' ls
     | none => .error (reprStr l)
 
-def q (s : St) : St := quiesce false fuel s
+def q (s : St) : St := quiesce true fuel s
 
 def syncingCall (s : St) : Option Nat :=
   (List.range s.calls.length).find? fun i => stOf s i == some .syncing
@@ -71,7 +76,7 @@ def act (s : St) (ws : List String) : Except String St :=
         let s1 ← applyAll s [.enter i]
         let s2 := q s1
         -- the deadline passes (a call that already returned has nothing left to cancel)
-        match step false s2 (.cancel i) with
+        match stepNow s2 (.cancel i) with
         | some s3 => pure (q s3)
         | none => .error "cancel-disabled"
     | none => .error "bad-index"
@@ -86,6 +91,17 @@ def act (s : St) (ws : List String) : Except String St :=
   | ["close"] => (applyAll s [.closeEnter .closing]).map q
   | _ => .error "bad-act"
 
+/-- labels of a `raw` line -/
+def parseLabels : List String → Option (List Label)
+  | [] => some []
+  | "enter" :: i :: rest => do let i ← i.toNat?; let ls ← parseLabels rest; pure (.enter i :: ls)
+  | "decide" :: i :: rest => do let i ← i.toNat?; let ls ← parseLabels rest; pure (.decide i :: ls)
+  | "put" :: i :: rest => do let i ← i.toNat?; let ls ← parseLabels rest; pure (.put i :: ls)
+  | "closeEnter" :: rest => do let ls ← parseLabels rest; pure (.closeEnter .closing :: ls)
+  | "closeCas" :: rest => do let ls ← parseLabels rest; pure (.closeCas :: ls)
+  | "closePing" :: rest => do let ls ← parseLabels rest; pure (.closePing :: ls)
+  | _ => none
+
 /-! the specification side (`!` lines) -/
 
 def b (w : String) : Bool := w == "1"
@@ -99,6 +115,12 @@ def callOk (returned : Bool) (cls : String) (ctxAtStart ctxDone sent : Bool) : B
   (cls == "reply" || cls == "transport" || cls == "closing" || cls == "ctx") &&
   (cls != "ctx" || ctxDone) &&
   (!ctxAtStart || (cls == "ctx" && !sent))
+
+/-- the regression of the Close-vs-admission race (Rv.C04.Life.every_admitted_call_resolves applied to the schedule
+    of close_race_strands_call): every party returned, the pipe reached state 4 and nobody holds `waits`
+    (no leaked PING helper) -/
+def raceOk (aRet bRet closeRet : Bool) (state waits : Nat) : Bool :=
+  aRet && bRet && closeRet && state == 4 && waits == 0
 
 /-- once the teardown was triggered on a pipe with a background goroutine and everything has settled:
     state 4 and nobody holds `waits` -/
@@ -117,10 +139,34 @@ def stepD (d : D) (ws : List String) : D × String :=
     match act d.s rest with
     | .ok s' => ({ d with s := s' }, snapshot s')
     | .error e => ({ d with ok := false, bad := e }, "model-stuck:" ++ e)
+  | "raw" :: rest =>
+    if !d.ok then (d, "model-stuck:" ++ d.bad) else
+    match parseLabels rest with
+    | none => (d, "bad-op")
+    | some ls =>
+      match applyAll d.s ls with
+      | .ok s' => ({ d with s := s' }, snapshot s')
+      | .error e => ({ d with ok := false, bad := e }, "model-stuck:" ++ e)
+  | "rawq" :: rest =>
+    if !d.ok then (d, "model-stuck:" ++ d.bad) else
+    match parseLabels rest with
+    | none => (d, "bad-op")
+    | some ls =>
+      match applyAll d.s ls with
+      | .ok s' => ({ d with s := q s' }, snapshot (q s'))
+      | .error e => ({ d with ok := false, bad := e }, "model-stuck:" ++ e)
+  | ["settle"] =>
+    if !d.ok then (d, "model-stuck:" ++ d.bad) else
+    let s' := q d.s
+    ({ d with s := s' }, snapshot s')
   | ["end"] =>
     if !d.ok then (d, "model-stuck:" ++ d.bad) else
     (d, "state=" ++ toString d.s.state ++ " waits=" ++ toString d.s.waits ++ " err=" ++ whyName d.s.err)
   | ["!call", r, cls, cs, cd, sent] => (d, verdict (callOk (b r) cls (b cs) (b cd) (b sent)))
+  | ["!race", _, a, bb, c, st, w] =>
+    match st.toNat?, w.toNat? with
+    | some st, some w => (d, verdict (raceOk (b a) (b bb) (b c) st w))
+    | _, _ => (d, "bad-op")
   | ["!final", bg, tr, st, w] =>
     match st.toNat?, w.toNat? with
     | some st, some w => (d, verdict (finalOk (b bg) (b tr) st w))
